@@ -99,6 +99,14 @@ def handle (d : DState) (ws : List String) : DState × String :=
         | some b => v == some b.ver && b.clean && (p == some (protText b.prot) || (b.ver == 0 && p == some "none"))
         | none => false
       ({ d with s := s' }, if ok then "= ok" else s!"= mismatch model-view={reprStr (view d.s)}")
+  | ["abort"] =>
+    -- the assembling thread panicked at the observation point it had just reported
+    match step d.s .abort with
+    | none => (d, "= mismatch model=cannot-abort")
+    | some s' => ({ d with s := s', prog := [] }, s!"= ok poisoned={if s'.poisoned then 1 else 0}")
+  | ["rlock", "poisoned"] =>
+    -- `Executor::lock` panicked on the `PoisonError`: the reader got nothing
+    if d.s.poisoned && (step d.s .rlock).isNone then (d, "= ok") else (d, s!"= mismatch model=not-poisoned view={reprStr (view d.s)}")
   | ["rlock", "blocked"] =>
     match step d.s .rlock with
     | none => (d, "= ok")
